@@ -311,7 +311,7 @@ func main() {
 		fqlast.Member(fqlast.Arr(fqlast.Int(1), fqlast.Int(2)), fqlast.Seg{Expr: fqlast.Int(-1)}),
 		fqlast.Member(fqlast.Param("s"), fqlast.Seg{Expr: fqlast.Int(5)}),
 		fqlast.Member(fqlast.Param("arr"), fqlast.Seg{Expr: fqlast.Int(-2)}),
-		fqlast.Call("PANIC_S"), fqlast.Call("PANIC_E"), fqlast.Call("PANIC_O"), fqlast.Call("FAIL"),
+		fqlast.Call("PANIC_S"), fqlast.Call("PANIC_E"), fqlast.Call("PANIC_O"), fqlast.Call("PANIC_N"), fqlast.Call("FAIL"),
 		fqlast.Math("%", fqlast.Float(2.5), fqlast.Float(0.5)),
 		fqlast.Member(fqlast.Arr(), fqlast.Seg{Expr: fqlast.Int(0)}),
 		fqlast.Math("/", fqlast.Float(1.5), fqlast.Float(0.0)),
@@ -374,6 +374,14 @@ func main() {
 			}
 		}
 	}
+	// e3. numeric functions with degenerate steps / bounds / counts (zero, negative, NaN-producing)
+	for _, q := range []string{"RANGE(1, 2, 0)", "RANGE(1, 5, -1)", "RANGE(5, 1, -1)", "RANGE(5, 1)", "RANGE(-5, -1)", "RANGE(1, 2, 0.0)", "RANGE(0, 1, 0.3)", "RANGE(1, 2, -0.5)", "RANGE(2, 1, 0)",
+		"RANGE(1, 3, 1e-320)", "RANDOM_TOKEN(-1)", "RANDOM_TOKEN(0)", "SUBSTRING(\"abc\", -1, 5)", "SUBSTRING(\"abc\", 2, -1)", "LEFT(\"abc\", -1)", "RIGHT(\"abc\", -1)", "SLICE([1,2,3], 5, -2)",
+		"REMOVE_NTH([1], 5)", "NTH([1], 9223372036854775807)", "PERCENTILE([1,2,3], 0)", "PERCENTILE([1,2,3], 101)", "PERCENTILE([], 50)", "FLATTEN([1,[2]], -1)", "POW(0, -1)", "LOG(0)", "SQRT(-1)", "1..0", "5..1",
+		"DATE_ADD(NOW(), 9223372036854775807, \"y\")", "DATE_DIFF(NOW(), NOW(), \"f\")", "REPEAT(\"a\", -1)", "LPAD(\"a\", -1, \"b\")", "RPAD(\"a\", 5, \"\")", "FIRST([])", "LAST([])", "MEDIAN([])", "AVERAGE([])",
+		"VARIANCE_SAMPLE([1])", "STDDEV_SAMPLE([1])", "SPLIT(\"abc\", \"\", -1)", "SPLIT(\"abc\", \"\", 0)", "JSON_PARSE(\"\")", "FROM_BASE64(\"!\")", "DECODE_URI_COMPONENT(\"%zz\")", "REGEX_TEST(\"a\", \"(\")", "\"a\" =~ \"(\"", "\"a\" LIKE \"[\""} {
+		add(task{Kind: "query", Query: "RETURN " + q, Origin: "fn-degenerate", Twice: true})
+	}
 	m.Extra["functions_exercised"] = nfn
 	// f. DOM accessors on a parsed page
 	for _, q := range []string{
@@ -388,6 +396,13 @@ func main() {
 		`LET d = PARSE("") RETURN INNER_HTML(d, "body")`, `LET d = PARSE(@html) RETURN INNER_TEXT_ALL(d, "")`, `LET d = PARSE(@html) RETURN ELEMENT_EXISTS(d, "[")`,
 	} {
 		add(task{Kind: "query", Query: q, Origin: "dom"})
+	}
+	// f1. style attributes the CSS scanner chokes on (unclosed quotes / brackets / comments,
+	// stray delimiters): reading them must end, with styles or with an error
+	for _, st := range []string{"content: 'abc", `content: \"abc`, "color: red; content: 'x", "background: url(", "background: url('a", "/* open", "color: /* c", "a:b:c", ";;;", ":", "color:", ": red",
+		"color red", "{}", "}", "width: 10px; }{", "\\", "color: r\\", "@media", "!important", "font: 12px/1.5 'A B", "x: \u0000", "é: ü", "--v: 1", "w: 1e999", "w: -", "w: 1.", "w: .5;h:0"} {
+		page := "`<div id=\"a\" style=\"" + strings.ReplaceAll(strings.ReplaceAll(st, "`", ""), `"`, "&quot;") + "\">x</div>`"
+		add(task{Kind: "query", Query: "LET d = PARSE(" + page + `) LET e = ELEMENT(d, "#a") RETURN [e.style, STYLE_GET(e, "color"), e.attributes]`, Origin: "dom-style"})
 	}
 	// f2. member access on DOM values: known and unknown property names, indexes, chains
 	domSrc := []string{"d", `ELEMENT(d, "div")`, `ELEMENT(d, "p")`, `ELEMENTS(d, "li")[0]`, `ELEMENTS(d, "li")`, `d.body`, `d.head`, `ELEMENT(d, "div").attributes`, `ELEMENT(d, "div").style`, `ELEMENT(d, "p").parentElement`}
